@@ -28,7 +28,7 @@ PER_RUN = 150       # messages per protoc invocation
 
 
 def unit_label(name: str) -> str:
-    return name.split("_", 1)[1] if "_" in name else name
+    return name.split("_", 1)[1] if "_" in name else name  # T1_single_int32 -> single_int32; TN3 / KS unchanged
 
 
 def run_universe_chunk(tier: str, start: int, t: Tally) -> List[Violation]:
